@@ -15,7 +15,9 @@ from sx.engine import harness
 from . import common as C, families as F, c01
 from .c01 import supports_of, where_raised
 
-RENAMES = [{"A": "b", "B": "A", "C": "c10", "D": "Ä"}, {"A": "C", "B": "A", "C": "B", "D": "D"}, {"A": "zz", "B": "Z", "C": "a", "D": "_"}]
+RENAMES = [{"A": "b", "B": "A", "C": "c10", "D": "Ä"}, {"A": "C", "B": "A", "C": "B", "D": "D"}, {"A": "zz", "B": "Z", "C": "a", "D": "_"},
+           # names that are substrings / prefixes of one another (W1 in W10 in W100, W in all)
+           {"A": "W1", "B": "W10", "C": "W", "D": "W100"}, {"A": "Anna", "B": "Ann", "C": "Annabel", "D": "An"}]
 UTILS = ("fpv", "borda", "mentions", "remove_cand", "pairwise")
 
 
@@ -162,7 +164,8 @@ def meta(ctx):
         inv = {v: k for k, v in ren.items()}
         p2 = profile_of(rows, cands, ren)
         if rule == "remove_cand":
-            opts2 = dict(opts, removed=[ren.get(c, c) for c in opts["removed"]])
+            rr = opts["removed"]
+            opts2 = dict(opts, removed=ren.get(rr, rr) if isinstance(rr, str) else [ren.get(c, c) for c in rr])
     elif rel == "reverse":
         p2 = profile_of(rows[::-1], cands)
     elif rel == "rotate":
@@ -330,7 +333,8 @@ def tasks(tier, seed):
     rules = [("STV", 2, o(True)), ("STV", 1, o(False)), ("SequentialRCV", 2, {"quota": "droop", "simultaneous": False, "tiebreak": None}),
              ("IRV", 1, {"quota": "droop", "tiebreak": None}), ("Plurality", 2, {"tiebreak": None}), ("Borda", 1, {"tiebreak": None}),
              ("TopTwo", 1, {"tiebreak": None}), ("Alaska", 1, dict(o(True), m_1=2)), ("DominatingSets", 1, {}), ("CondoBorda", 2, {}),
-             ("fpv", 0, {}), ("borda", 0, {}), ("mentions", 0, {}), ("remove_cand", 0, {"removed": ["B"]}), ("pairwise", 0, {})]
+             ("fpv", 0, {}), ("borda", 0, {}), ("mentions", 0, {}), ("remove_cand", 0, {"removed": ["B"]}), ("remove_cand", 0, {"removed": "B"}),
+             ("remove_cand", 0, {"removed": "C"}), ("pairwise", 0, {})]
     rels = ["rename0", "rename1", "reverse", "rotate", "split", "condense", "candorder", "candrot"]
     def t(rule, m, opts, sup, rel, cands=C.K3, **kw):
         d = {"harness": "c08.meta", "params": {"rule": rule, "m": m, "opts": opts, "family": sup, "cands": cands, "relation": rel, "nmax": 6},
@@ -343,7 +347,9 @@ def tasks(tier, seed):
         if rule in ("Plurality", "Borda", "fpv", "borda", "mentions", "remove_cand"):
             sups = sups + supports_of([F.fam("AB>C", "A>BC", "C>B")], sizes=(3,) if q else (2, 3))
         for j, sup in enumerate(sups):
-            use = rels if not q else [rels[(i + j) % len(rels)], rels[(i + j + 3) % len(rels)], "rename0"]
+            use = (rels + ["rename3", "rename4"]) if not q else [rels[(i + j) % len(rels)], rels[(i + j + 3) % len(rels)], "rename0"]
+            if q and rule in ("STV", "IRV", "SequentialRCV", "Alaska", "TopTwo", "remove_cand", "Plurality"):
+                use.append("rename3" if (i + j) % 2 == 0 else "rename4")
             if len(sup) >= 2 and sup[0] != sup[-1] and not q:
                 pass
             for rel in dict.fromkeys(use):
